@@ -493,41 +493,47 @@ def has_next_of(t, key, fld):
     return False
 
 
-def r_stride_iter(F, R):
-    """StrideIter::next = strided.index(self.index) under index < len, then index += 1;
-    Stride::iter starts at 0 with a copy of the stride"""
+def r_stride_iter(F, R, cat=None):
+    """StrideIter::next yields strided.index(self.index) and advances self.index by one after the
+    read; Stride::iter starts at 0 with a copy of the stride"""
+    from expr import ret_alts, nobb, NONE
+    cat = cat or Catalogue(F)
     nb = [b for b in F.bodies.values() if b.self_adt == "impls::index::StrideIter" and b.name == "next"]
     R.floor("R-ITER", "StrideIter::next", len(nb), 1)
     for b in nb:
         R.saw(b)
-        c = Ctx(b)
+        c, effs = cat.effects(b)
         idx_place = ("place", b.key, ("arg", 1), ("f:index",))
-        # the value returned in Some(..) is the result of Stride::index(self.strided, self.index)
-        some_ok = False
-        for o in c.org.local(0):
-            t = tree(c, o)
-            if t[0] == "agg" and t[1] == "Option::Some":
-                v = t[2][0]
-                if v[0] == "call" and v[1] == ("Stride", "index") and v[2][1] == idx_place and \
-                        v[2][0] == ("place", b.key, ("arg", 1), ("f:strided",)):
-                    some_ok = True
-        R.check("R-ITER", b.label(), some_ok, construct="yields strided.index(self.index)",
-                where=b.where(), detail="")
-        # increment by one after the read, on the Some path
-        inc_ok = False
-        for bi in sorted(b.live_blocks()):
-            for si, st in enumerate(b.blocks[bi]["stmts"]):
-                if st["k"] == "assign" and st["place"]["p"]:
-                    tgt = place_tree(c, st["place"])
-                    if tgt == idx_place:
-                        val = trees(c, c.org.rvalue(st["rv"], bi, si))
-                        d = lin(val)
-                        if d.get(idx_place) == 1 and d.get(1) == 1 and len(d) == 2:
-                            idx_calls = [x for (x, t) in b.calls() if callee_tag(t.get("callee")) == ("Stride", "index")]
-                            if idx_calls and (bi in reach_strict(b, idx_calls[0]) or bi == idx_calls[0]):
-                                inc_ok = True
-        R.check("R-ITER", b.label(), inc_ok, construct="self.index += 1 after the read",
-                where=b.where(), detail="")
+        str_place = ("place", b.key, ("arg", 1), ("f:strided",))
+        somes = [nobb(t) for t in ret_alts(c) if t != NONE]
+        want = ("agg", "Option::Some", (("call", ("Stride", "index"), (str_place, idx_place), ()),), ())
+        if not somes:
+            R.undecided_site("R-ITER", b.label(), "yielded value not recognised")
+        else:
+            R.check("R-ITER", b.label(), all(t == want for t in somes), construct="yields strided.index(self.index)",
+                    where=b.where(), detail="yields %s" % [show(t) for t in somes])
+        # increment by one, after the read, in the same context as the read
+        reads = [e for e in effs if e.tag == ("Stride", "index")]
+        incs = []
+        others = []
+        for e in effs:
+            if e.cls != "assign":
+                continue
+            for (cc, (r, p)) in e.targets or ():
+                if cc is c and r == ("arg", 1) and p == ("f:index",):
+                    val = trees(e.ctx, e.value)
+                    d = lin(val)
+                    if d.get(idx_place) == 1 and d.get(1) == 1 and len(d) == 2:
+                        incs.append(e)
+                    else:
+                        others.append(show(val))
+        ok = bool(incs) and not others
+        for e in incs:
+            same = [r_ for r_ in reads if r_.ctx is e.ctx]
+            if not same or not any(e.bb == r_.bb or e.bb in reach_strict(e.ctx.body, r_.bb) for r_ in same):
+                ok = False
+        R.check("R-ITER", b.label(), ok, construct="self.index += 1 after the read",
+                where=b.where(), detail="%d increments, other stores to the cursor: %s" % (len(incs), others))
     ib = [b for b in F.bodies.values() if b.self_adt == STRIDE and b.name == "iter" and b.trait is None]
     for b in ib:
         R.saw(b)
